@@ -476,6 +476,31 @@ def r_state(ctx):
                       'one of the two randomised calls (%d generator calls)' % len(rng),
                       '%s draws from / reseeds the global numpy generator (%s): results depend on the call history'
                       % (f.name, rng[0][1]), inputs='any history of calls')
+        if rng and fq == 'dsw.graphized.approximate_capacity':
+            # the documented deterministic mode (repeats = 1, the default) never touches the generator: every draw sits under a
+            # test that fails for repeats = 1
+            from ..finite import feval, UNKNOWN
+            for nd_, q_ in rng:
+                excluded = False
+                for atom, pol in ctx.conds(f, nd_):
+                    v_ = feval(atom, lambda x: 1 if x == ('v', 'repeats', 'P') else UNKNOWN)
+                    if v_ is not UNKNOWN and bool(v_) != pol:
+                        excluded = True
+                # a draw written inside a conditional expression is excluded by that expression's test
+                for t_ in [t for n2, r_, t in ctx.root_terms(f) if n2.id == nd_.id and t is not None]:
+                    for x in walk_term(t_):
+                        if x[0] == 'ifexp':
+                            v_ = feval(x[1], lambda y: 1 if y == ('v', 'repeats', 'P') else UNKNOWN)
+                            arm = x[3] if v_ is False else (x[2] if v_ is True else None)
+                            other = x[2] if v_ is False else (x[3] if v_ is True else None)
+                            if other is not None and any(call_name(y) and 'random' in call_name(y) for y in walk_term(other)) and \
+                                    not any(call_name(y) and 'random' in call_name(y) for y in walk_term(arm)):
+                                excluded = True
+                run.check(excluded, 'R-STATE', f, 'rng-only-when-repeated', nd_.lineno,
+                          'the generator is drawn from only when repeats > 1',
+                          'approximate_capacity draws from the global numpy generator (%s) on a path that repeats = 1 reaches: the '
+                          'default, documented-deterministic call now advances the generator, so later seeded results depend on whether '
+                          'it was called' % q_, inputs='random.seed(s); approximate_capacity(accessor); then any seeded draw')
         if clock:
             run.check(f.cls is not None and f.cls.name == 'Monitor', 'R-STATE', f, 'clock-confined', clock[0][0].lineno,
                       'clock read only inside the progress monitor',
@@ -681,6 +706,30 @@ def r_negslice(ctx, fqs):
                 if not (b[0] == 'un' and b[1] == '-') and not (b[0] == 'bin' and b[1] == '-' and b[2] == ('c', 0)):
                     continue
                 e = b[2] if b[0] == 'un' else b[3]
+                # -len(L) for a local list L that starts empty and is only filled by a loop: nothing makes the loop run
+                if is_call(e, 'builtins.len') and len(e[2]) == 1 and e[2][0][0] == 'v' and isinstance(e[2][0][2], tuple):
+                    L = e[2][0]
+                    starts_empty = any(f.defs[i].kind == 'assign' and TermBuilder(f, f.defs[i].node).def_term(i) in (('list',), ('c', ''))
+                                       for i in L[2])
+                    grows_in_loop = [d for d in f.defs if d.name == L[1] and d.kind == 'mutate' and f.nodes[d.node].loops]
+                    grows_outside = [d for d in f.defs if d.name == L[1] and d.kind in ('mutate', 'aug') and not f.nodes[d.node].loops]
+                    if starts_empty and grows_in_loop and not grows_outside:
+                        from ..finite import feval as _fe, UNKNOWN as _U
+                        excl = False
+                        for a_, pol_ in ctx.conds(f, nd):
+                            v_ = _fe(a_, lambda x: 0 if x == e else ([] if x == L else _U))
+                            if v_ is not _U and bool(v_) != pol_:
+                                excl = True
+                        if not excl and (nd.id, which, b) not in seen:
+                            seen.add((nd.id, which, b))
+                            n += 1
+                            run.refute('R-NEGZERO', f, 'slice-bound-minus-zero', nd.lineno,
+                                       'the %s slice bound %s is -0 = 0 when the list `%s` is still empty (it starts as [] and is only filled '
+                                       'inside a loop that need not run): the slice is then %s, not %s'
+                                       % (which, show(b)[:40], L[1], 'the whole sequence' if which == 'lower' else 'empty',
+                                          'the empty suffix' if which == 'lower' else 'the whole sequence'),
+                                       inputs='the input for which the filling loop does not run (e.g. the number 0)')
+                    continue
                 a = affine(e)
                 if not a:
                     continue
